@@ -222,15 +222,16 @@ class Ctx:
         ev = {"property_id": self.prop, "tier": self.tier, "seed": self.seed, "level": level,
               "coverage": coverage, "assumptions": assumptions,
               "wall_s": round(time.time() - self.t0, 2), "violations": violations}
-        os.makedirs(os.path.join(VERIF, "evidence"), exist_ok=True)
-        p = os.path.join(VERIF, "evidence", self.prop + ".json")
+        edir = os.environ.get("VERIF_EVIDENCE_DIR") or os.path.join(VERIF, "evidence")   # (override: mutant evaluation only)
+        os.makedirs(edir, exist_ok=True)
+        p = os.path.join(edir, self.prop + ".json")
         with open(p, "w") as f:
             json.dump(ev, f, indent=1, sort_keys=True)
             f.write("\n")
         return p
 
     def write_replay(self, key, obj):
-        d = os.path.join(VERIF, "replay")
+        d = os.environ.get("VERIF_REPLAY_DIR") or os.path.join(VERIF, "replay")
         os.makedirs(d, exist_ok=True)
         h = hashlib.sha256(json.dumps(key, sort_keys=True).encode()).hexdigest()[:12]
         p = os.path.join(d, "%s-%s.json" % (self.prop, h))
